@@ -504,6 +504,14 @@ func (g *gen) applyContractEnv(ctr *Contract, key string, sig *types.Signature, 
 		}
 		g.assume(t)
 	}
+	for _, ab := range ctr.Abstracts {
+		if t, err := g.evalBool(&post, ab.E); err == nil {
+			g.assumed["the result of "+short+" is a function of its receiver and arguments (abstracts clause)"] = true
+			g.assume(t)
+		} else {
+			g.contractErr("call-"+short+"-abstracts", ab.Label, err)
+		}
+	}
 	for _, em := range ctr.Emits {
 		g.emitLog(&post, em)
 	}
